@@ -348,17 +348,32 @@ func (c *Chain) Name(concrete string) string {
 	}
 	doc := strings.TrimPrefix(concrete, "did:sid:")
 	if len(doc) == 64 && c.App != nil {
-		if d, ok := c.App.DidKeeper.GetSidDocument(c.Ctx, doc); ok && len(d.Keys) > 0 && strings.HasPrefix(d.Keys[0].Value, "key-") {
-			parts := strings.Split(strings.TrimPrefix(d.Keys[0].Value, "key-"), "-")
-			if len(parts) == 1 {
-				return parts[0]
-			}
-			if len(parts) >= 2 {
-				return parts[0] + "_" + parts[1]
+		if d, ok := c.App.DidKeeper.GetSidDocument(c.Ctx, doc); ok && len(d.Keys) > 0 {
+			if n, ok := sidDocNameByKey(d.Keys[0].Value); ok {
+				return n
 			}
 		}
 	}
 	return concrete
+}
+
+var sidKeyNames map[string]string
+
+// sidDocNameByKey: the symbolic name of the harness-made sid document whose authentication key is v.
+func sidDocNameByKey(v string) (string, bool) {
+	if sidKeyNames == nil {
+		sidKeyNames = map[string]string{}
+		for i := 1; i <= 9; i++ {
+			root := fmt.Sprintf("s%d", i)
+			sidKeyNames[sidDocKeys(root)[0].Value] = root
+			for j := 1; j <= 40; j++ {
+				n := fmt.Sprintf("%s_v%d", root, j)
+				sidKeyNames[sidDocKeys(n)[0].Value] = n
+			}
+		}
+	}
+	n, ok := sidKeyNames[v]
+	return n, ok
 }
 
 // Concrete maps a symbolic name to its concrete value; unknown names map to themselves.
